@@ -637,6 +637,18 @@ def gen_stub_sim(rng, floats, max_act_card=4000, kw=False):
         pts += [spc.random_point(rng, ob) for _ in range(rng.randint(1, 4))]
         obs.append(pts)
         nulls.append([_null_for(rng, act), _null_for(rng, ob)] if rng.random() < 0.3 else None)
+    lr = [i for i in range(script["n"]) if script["learning"][i]]
+    if len(lr) >= 2 and not floats and rng.random() < 0.1:
+        # near twins: two agents whose observation spaces differ by ONE in a bound of several hundred thousand - equal
+        # for gymnasium's Box.__eq__ (np.allclose), different spaces with different numbers of points
+        i0, i1 = rng.sample(lr, 2)
+        top = rng.choice([250000, 10 ** 6, 3 * 10 ** 5 + 7])
+        for i, hi in ((i0, top), (i1, top + 1)):
+            ob = ["box", [1], [0], [hi], True]
+            spaces[i][1] = ob
+            obs[i] = list(spc.corner_points(rng, ob))[:2] + [spc.random_point(rng, ob) for _ in range(2)]
+            if nulls[i] is not None:
+                nulls[i][1] = None
     sd = {"type": "stub", "script": script, "spaces": spaces, "obs": obs, "flat": rng.random() < 0.3}
     if any(n is not None for n in nulls):
         sd["nulls"] = nulls
